@@ -227,7 +227,7 @@ class Ctx(object):
         out_lines = []
         status = 0
         for fid, (cnt, f, detail) in sorted(self.known.items()):
-            out_lines.append("KNOWN-FINDING: property=%s %s (%s; seen %d times this run)" % (self.prop, fid, f.get("what", ""), cnt))
+            out_lines.append("KNOWN-FINDING: property=%s %s: %s [seen %d times this run]" % (self.prop, fid, f.get("what", "")[:220], cnt))
         rep_dir = os.path.join(VERIF, "replays")
         os.makedirs(rep_dir, exist_ok=True)
         reported = 0
